@@ -597,12 +597,20 @@ def specials(rng):
              {"decl": "template<typename T> T twice(T v)", "cxx_template": [{"instantiation": "<int>"}, {"instantiation": "<double>"}]},
              {"decl": "int *garr(int n) +dimension(n)+deref(allocatable)"},
              {"decl": "int *gmat(int nr, int nc) +dimension(nr,nc)+deref(allocatable)"},
-             {"decl": "double *gptr(int n) +dimension(n)+deref(pointer)"}]
+             {"decl": "double *gptr(int n) +dimension(n)+deref(pointer)"},
+             # fortran_generic: the Fortran caller picks a specific by argument type; implied arguments are computed from the
+             # argument the caller actually passed
+             {"decl": "long gen2(long a1, long a2)", "fortran_generic": [{"decl": "(int a1, int a2)"}, {"decl": "(long a1, long a2)"}]},
+             {"decl": "double sum_typed(void *addr, int type +implied(type(addr)), size_t size +implied(size(addr)))",
+              "fortran_generic": [{"decl": "(float *addr +rank(1)+deref(raw)+intent(in))"},
+                                  {"decl": "(double *addr +rank(1)+deref(raw)+intent(in))"},
+                                  {"decl": "(int *addr +rank(1)+deref(raw)+intent(in))"}]}]
     mdecls = [{"decl": "int addmul(int a, int b = 2)"}]
     hpp = ["int defs(int a, int b = 10, int c = 100);", "double defd(double x, double y = 0.0);",
            "void eq_trace_twice(double v);",
            "template<typename T> T twice(T v) { eq_trace_twice((double)v); return (T)(v + v); }",
-           "int *garr(int n);", "int *gmat(int nr, int nc);", "double *gptr(int n);"]
+           "int *garr(int n);", "int *gmat(int nr, int nc);", "double *gptr(int n);",
+           "long gen2(long a1, long a2);", "double sum_typed(void *addr, int type, size_t size);"]
     hmeth = ["  int addmul(int a, int b = 2);"]
     cpp = ['int defs(int a, int b, int c) { std::cout << "callee defs(" << a << "," << b << "," << c << ")\\n"; return a + b + c; }',
            'double defd(double x, double y) { std::cout << "callee defd("; show(x); show(y); std::cout << ")\\n"; return x * 2.0 + y; }',
@@ -611,6 +619,9 @@ def specials(rng):
            'int *garr(int n) { std::cout << "callee garr(" << n << ")\\n"; int *p = gbuf; for (int i = 0; i < n; ++i) p[i] = 10 + i; return p; }',
            'int *gmat(int nr, int nc) { std::cout << "callee gmat(" << nr << "," << nc << ")\\n"; int *p = gbuf + 32; for (int i = 0; i < nr * nc; ++i) p[i] = 100 + i; return p; }',
            'double *gptr(int n) { std::cout << "callee gptr(" << n << ")\\n"; for (int i = 0; i < n && i < 64; ++i) dbuf[i] = 0.5 * i; return dbuf; }',
+           'long gen2(long a1, long a2) { std::cout << "callee gen2(" << a1 << "," << a2 << ")\\n"; return a1 * 1000 + a2; }',
+           'double sum_typed(void *addr, int type, size_t size) { std::cout << "callee sum_typed(type=" << type << ",size=" << size << ")\\n"; double t = 0; '
+           'for (size_t i = 0; i < size; ++i) t += type == 22 ? ((float *)addr)[i] : type == 23 ? ((double *)addr)[i] : type == 3 ? ((int *)addr)[i] : -1000.0; return t; }',
            'int Thing::addmul(int a, int b) { std::cout << "callee Thing::addmul(" << a << "," << b << ")\\n"; return (v + a) * b; }']
 
     def dshow(label, expr, typ="int"):
@@ -626,6 +637,15 @@ def specials(rng):
     # template instantiations
     direct += dshow("twice_i", "twice<int>(%d)" % v_i) + dshow("twice_d", "twice<double>(%r)" % v_d, "double")
     cdrv += dshow("twice_i", "EQ_twice_int(%d)" % v_i) + dshow("twice_d", "EQ_twice_double(%r)" % v_d, "double")
+    # fortran_generic and implied arguments (type codes of the generated types header: float 22, double 23, int 3)
+    g1, g2 = rng.choice([3, -4, 70000]), rng.choice([4, 9])
+    for drv, fn in ((direct, "gen2"), (cdrv, "EQ_gen2")):
+        drv += dshow("gen2_i", "%s(%d, %d)" % (fn, g1, g2), "long") + dshow("gen2_l", "%s(%dL, %dL)" % (fn, g1 + 5, g2), "long")
+    for drv, fn in ((direct, "sum_typed"), (cdrv, "EQ_sum_typed")):
+        drv += ["    { float fa[3] = {1.5f, 2.5f, 3.0f}; double da[2] = {0.25, 8.0}; int ia[4] = {1, 2, 3, 40};",
+                "      double r1 = %s(fa, 22, 3); eq_begin(\"sumf\"); eq_double(r1); eq_end();" % fn,
+                "      double r2 = %s(da, 23, 2); eq_begin(\"sumd\"); eq_double(r2); eq_end();" % fn,
+                "      double r3 = %s(ia, 3, 4); eq_begin(\"sumi\"); eq_double(r3); eq_end(); }" % fn]
     # array results (the C API returns the library's pointer)
     for drv, call1, callm, callp in ((direct, "garr(%d)" % n1, "gmat(%d, %d)" % (nr, nc), "gptr(%d)" % max(n1, 2)),
                                      (cdrv, "EQ_garr(%d)" % n1, "EQ_gmat(%d, %d)" % (nr, nc), "EQ_gptr(%d)" % max(n1, 2))):
@@ -646,6 +666,13 @@ def specials(rng):
     fbody += ["    sp_i = self%%addmul(%d_C_INT, %d_C_INT)" % (m_a, m_b)] + fshow("addmul2", f_show("int", "sp_i"))
     fbody += ["    sp_i = twice_int(%d_C_INT)" % v_i] + fshow("twice_i", f_show("int", "sp_i"))
     fbody += ["    sp_d = twice_double(%r_C_DOUBLE)" % v_d] + fshow("twice_d", f_show("double", "sp_d"))
+    fdecl += ["    integer(C_LONG) :: sp_l", "    real(C_FLOAT), target :: sp_fa(3) = [1.5_C_FLOAT, 2.5_C_FLOAT, 3.0_C_FLOAT]",
+              "    real(C_DOUBLE), target :: sp_da(2) = [0.25_C_DOUBLE, 8.0_C_DOUBLE]", "    integer(C_INT), target :: sp_ia(4) = [1, 2, 3, 40]"]
+    fbody += ["    sp_l = gen2(%d_C_INT, %d_C_INT)" % (g1, g2)] + fshow("gen2_i", f_show("long", "sp_l"))
+    fbody += ["    sp_l = gen2(%d_C_LONG, %d_C_LONG)" % (g1 + 5, g2)] + fshow("gen2_l", f_show("long", "sp_l"))
+    fbody += ["    sp_d = sum_typed(sp_fa)"] + fshow("sumf", f_show("double", "sp_d"))
+    fbody += ["    sp_d = sum_typed(sp_da)"] + fshow("sumd", f_show("double", "sp_d"))
+    fbody += ["    sp_d = sum_typed(sp_ia)"] + fshow("sumi", f_show("double", "sp_d"))
     fbody += ["    sp_a1 = garr(%d_C_INT)" % n1, "    call eq_begin(\"garr\"//C_NULL_CHAR)", "    call eq_int(int(size(sp_a1), C_LONG))",
               "    do sp_i = 1, size(sp_a1)", "        call eq_int(int(sp_a1(sp_i), C_LONG))", "    end do", "    call eq_end()"]
     fbody += ["    sp_a2 = gmat(%d_C_INT, %d_C_INT)" % (nr, nc), "    call eq_begin(\"gmat\"//C_NULL_CHAR)", "    call eq_int(int(size(sp_a2), C_LONG))",
